@@ -251,6 +251,9 @@ func (e PEnum) DDL() string {
 func (p Project) SchemaDecls() (enums, tables []string) {
 	if p.RawSchema != "" {
 		for _, ln := range strings.Split(strings.TrimSpace(p.RawSchema), "\n") {
+			if rawDependent(ln) {
+				continue // see DependentDecls
+			}
 			if strings.HasPrefix(ln, "CREATE TABLE") {
 				tables = append(tables, ln)
 			} else if strings.TrimSpace(ln) != "" {
@@ -272,6 +275,24 @@ func (p Project) SchemaDecls() (enums, tables []string) {
 		tables = append(tables, "CREATE TABLE "+j+" (id bigint NOT NULL, payload text);")
 	}
 	return
+}
+
+func rawDependent(ln string) bool {
+	return strings.HasPrefix(ln, "ALTER ") || strings.HasPrefix(ln, "DROP ") || (strings.HasPrefix(ln, "CREATE TABLE") && strings.Contains(ln, " LIKE "))
+}
+
+// DependentDecls: the statements of a raw schema that refer to earlier declarations; they keep their place after
+// the independent ones
+func (p Project) DependentDecls() []string {
+	var out []string
+	if p.RawSchema != "" {
+		for _, ln := range strings.Split(strings.TrimSpace(p.RawSchema), "\n") {
+			if rawDependent(ln) {
+				out = append(out, ln)
+			}
+		}
+	}
+	return append(out, p.Suffix...)
 }
 
 func (p Project) Schema() string {
